@@ -24,7 +24,10 @@ clear_mix = dict(ins=34, era=6, find=14, findc=0, insr=6, erar=2, findr=5, findf
 
 def profile_for(mode, kind):
     if mode == "C18":
-        return Profile(w=range_mix, max_range=6, nops=(20, 45))
+        # tlru / utlru: no update-only inserts (C09 lets an update addressed to an expired, not yet
+        # removed entry go either way, so a range and its singles may legitimately differ there)
+        allow = [(3, 6), (1, 3)] if kind in ("tlru", "utlru") else [(3, 6), (1, 2), (2, 2)]
+        return Profile(w=range_mix, max_range=6, nops=(20, 45), allow_w=allow)
     if mode == "C19":
         allow = [(3, 4), (1, 3)] if kind in vlib.TTL_KINDS else [(3, 4), (1, 3), (2, 3)]
         return Profile(w=noeff_mix, peek_p=0.6, allow_w=allow, nops=(25, 55), extra_keys=[1, 2, 3])
@@ -111,7 +114,13 @@ def derive_B(mode, A_script, A_trace, extra):
     sizes = []
     for e in evA:
         if mode == "C18":
-            ls = ev_to_lines(e, True) if e["op"] in ("insr", "erar", "findr", "findf") else ev_to_lines(e, False)
+            if e["op"] in ("insr", "erar", "findr", "findf"):
+                ls = ev_to_lines(e, True)
+                # no projection between the single calls of one expanded range (its lookups are calls
+                # too and may discard expired entries in between, which the range form cannot mirror)
+                ls = ["~" + x for x in ls[:-1]] + ls[-1:]
+            else:
+                ls = ev_to_lines(e, False)
         else:
             ls = [] if is_noeffect(e) else ev_to_lines(e, False)
         lines += ls
